@@ -7,6 +7,7 @@ RULE = ('python-random histories under a system-bus-like policy (only requested 
         'calls, genuine / duplicate / wrong-serial / third-party / late replies, serial reuse, NO_REPLY calls, callee and caller '
         'disconnects in the same round as the reply, per-connection pending-reply limit 2-3; every 3rd scenario runs with a '
         'finite reply_timeout and a train of keep-alive calls so that old slots must expire while newer ones are pending; '
+        'every sixth scenario: one caller with the same serial outstanding towards two or three callees that answer in any order (plus duplicates); '
         'distinct = distinct scenario texts')
 W = {'req': 1.2, 'rel': 0.4, 'query': 0.2, 'addmatch': 0.3, 'rmmatch': 0.1, 'signal': 0.4, 'call': 6, 'reply': 6,
      'usignal': 0.5, 'close': 0.6, 'driver_other': 0.2, 'nodest': 0.1}
@@ -26,7 +27,43 @@ def keepalive(g, rounds, total_ms):
                                           'mem': 'Ma', 'ser': g.ser[a], 'sig': '', 'body': []}]}})
 
 
+def shared_serial(rng):
+    """one caller has calls with the same serial outstanding towards different callees (only the pair caller/callee must
+    be unique): every addressee's genuine reply passes exactly once, in whatever order they answer"""
+    cfg = {'policy_ctxs': policygen.SYSTEM_LIKE, 'maxReplies': 100000}
+    names = {2: 'com.example.A', 3: 'com.example.B', 4: 'com.example.A.Sub'}
+    rounds = [{'ops': {'1': [{'k': 'connect', 'uid': 0}, {'k': 'hello'}]}}]
+    for s, n in names.items():
+        rounds.append({'ops': {str(s): [{'k': 'connect', 'uid': 0}, {'k': 'hello'}, {'k': 'req', 'n': n, 'f': 0}]}})
+    callees = rng.sample([2, 3, 4], rng.choice([2, 3]))
+    ser = rng.choice([7, 1001])
+    calls = [{'k': 'send', 'ty': 1, 'dst': names[c], 'path': '/a', 'ifc': 'com.example.I', 'mem': 'Ma', 'sig': 'u', 'body': [c],
+              'ser': ser, 'fl': 0} for c in callees]
+    if rng.random() < 0.5:
+        rounds.append({'ops': {'1': calls}})
+    else:
+        for c in calls:
+            rounds.append({'ops': {'1': [c]}})
+    order = callees[:]
+    rng.shuffle(order)
+    for c in order:
+        ops = [{'k': 'send', 'ty': rng.choice([2, 2, 3]), 'dst': {'slot': 1}, 'rs': ser, 'sig': 's', 'body': ['r%d' % c], 'err': 'com.example.Err'}]
+        if rng.random() < 0.3:
+            ops.append(dict(ops[0]))            # a duplicate: must be refused
+        rounds.append({'ops': {str(c): ops}})
+    # anybody answering again, or a stranger answering, is refused
+    rounds.append({'ops': {str(rng.choice([2, 3, 4])): [{'k': 'send', 'ty': 2, 'dst': {'slot': 1}, 'rs': ser, 'sig': 's', 'body': ['late']}]}})
+    for r in rounds:
+        for ops in r['ops'].values():
+            for o in ops:
+                if o.get('k') == 'send' and o.get('ty') != 3:
+                    o.pop('err', None)
+    return {'cfg': cfg, 'rounds': rounds}
+
+
 def gen(rng, i):
+    if i % 6 == 3:
+        return shared_serial(rng)
     timed = (i % 3 == 2)
     cfg = {'policy_ctxs': policygen.SYSTEM_LIKE, 'maxReplies': rng.choice([2, 3, 100000])}
     if timed:
